@@ -54,6 +54,9 @@ def collect(prop: str):
             lemmas.append(inst)
         bounded.extend(getattr(m, "BOUNDED", []))
         extra.extend(getattr(m, "STRUCTURAL", []))
+        for f in getattr(m, "STRUCTURAL", []):
+            if hasattr(f, "concretize"):  # native replay of a refuted structural obligation (witness -> probe of the real code)
+                registry.setdefault(f.__name__, f)
         for c in getattr(m, "HELPER_CONTRACTS", []):
             inst = c() if isinstance(c, type) else c
             registry[inst.name()] = inst
@@ -322,11 +325,15 @@ def main(prop: str, tier: str = "quick") -> int:
                 known_out.append({"id": f["id"], "obligation": f["obligation"], "what": f["what"], "instances": 0, "witness_reproduces": True})
     seen = set()
     n_viol = 0
+    per_oid = defaultdict(int)
     for rec in violations:
         key = (rec["oid"], rec.get("note"))
         if key in seen:
             continue
         seen.add(key)
+        per_oid[rec["oid"]] += 1
+        if per_oid[rec["oid"]] > 3:  # an obligation refuted in many case splits: three replayed witnesses are enough to name it
+            continue
         n_viol += 1
         rp, reproduced = write_replay(prop, rec, registry)
         suffix = "" if reproduced else " no-failing-input-found"
@@ -418,10 +425,21 @@ def main(prop: str, tier: str = "quick") -> int:
         "wall_s": round(time.time() - t0, 2),
         "violations": n_viol,
     }
+    if tier == "thorough" and os.environ.get("PYVC_NO_MUTANTS") != "1" and os.environ.get("PANDERA_REPO", "/repo") == "/repo":
+        # guard 6 (DESIGN 4.6): the mutant / seeded-change catalogue of this property; reported, never part of the verdict on /repo
+        try:
+            from . import mutants as _mut
+
+            mres = _mut.run([prop])
+            evidence["coverage"]["mutants"] = {**(_mut.summarise(mres).get(prop) or {"total": 0, "killed": 0}),
+                                               "detail": [{k: r.get(k) for k in ("mutant", "status", "killed", "obligations", "replayed")} for r in mres]}
+        except Exception as e:  # noqa: BLE001
+            evidence["coverage"]["mutants"] = {"error": f"{type(e).__name__}: {e}"}
     if n_disch < n_oblig and exit_code == 0:
         evidence["coverage"]["explanation"] += " NOTE: discharged < obligations: some obligations are undecided (listed)."
-    os.makedirs(os.path.join(HERE, "evidence"), exist_ok=True)
-    with open(os.path.join(HERE, "evidence", f"{prop}.json"), "w") as fh:
+    evdir = os.environ.get("PYVC_EVIDENCE_DIR") or os.path.join(HERE, "evidence")  # scratch runs (seeds, mutants) write elsewhere
+    os.makedirs(evdir, exist_ok=True)
+    with open(os.path.join(evdir, f"{prop}.json"), "w") as fh:
         json.dump(evidence, fh, indent=1, default=str)
     for l in lines:
         print(l)
